@@ -123,7 +123,11 @@ def iter_guardrail_configs(fh: BinaryIO, xorkey: bytes = b"\x8a") -> Iterator[Gu
             while True:
                 if fh_guard.peek(2)[:2] == b"\x00\x00":
                     break
-                setting = GuardrailSetting(fh_guard)
+                try:
+                    setting = GuardrailSetting(fh_guard)
+                except EOFError:
+                    # setting runs past the end of the guardrail config, no more (valid) settings
+                    break
                 settings.append(setting)
                 log.debug(setting)
                 if setting.option == GuardOption.GUARD_PAYLOAD_CHECKSUM:
